@@ -856,12 +856,13 @@ class ZeroSigH0SingleDatasetTCLLHRatio(
                     'Calculate global fit parameter dependent data fields.'):
                 # Create the global_fitparams dictionary with the global fit
                 # parameter names and values.
-                global_fitparams = self._pmm.get_global_floating_params_dict(
-                    gflp_values=fitparam_values)
+                global_fitparams_dict =\
+                    self._pmm.create_global_floating_params_dict(
+                        gflp_values=fitparam_values)
                 tdm.calculate_global_fitparam_data_fields(
                     shg_mgr=self._shg_mgr,
                     pmm=self._pmm,
-                    global_fitparams=global_fitparams)
+                    global_fitparams_dict=global_fitparams_dict)
 
         # Calculate the PDF ratio values for each selected event.
         with TaskTimer(tl, 'Calc pdfratio value Ri'):
